@@ -64,6 +64,13 @@ CORPUS = [
     {"idx": -4, "topo": "D", "deployments": {"D": {"kind": "base", "wraps": None, "lazy": True}},
      "scripts": {"D": {"deploy": [[1, True]] * 4, "undeploy_steps": 1}}, "prefix": [["deploy", "D"]],
      "batch": [["use", "D"], ["deploy", "D"], ["undeploy", "D"], ["deploy", "D"]], "lseed": 770412259},
+    # open finding: a waiting undeploy clears the event of a failed deployment, later deploys hang
+    {"idx": -5, "topo": "D", "deployments": {"D": {"kind": "base", "wraps": None, "lazy": False}},
+     "scripts": {"D": {"deploy": [[3, False], [1, True]], "undeploy_steps": 1}}, "prefix": [],
+     "batch": [["deploy", "D"], ["undeploy", "D", 1], ["deploy", "D", 8]], "lseed": 0, "final_undeploy_all": False},
+    # open finding: a wrapper whose own deploy fails stays among the dependants of the wrapped deployment
+    {"idx": -6, "topo": "WXD", "deployments": {n: {"kind": "wrap" if w else "base", "wraps": w, "lazy": False} for n, w in TOPOS["WXD"].items()},
+     "scripts": {"W": {"deploy": [[1, False]]}}, "prefix": [], "batch": [["deploy", "W"], ["deploy", "X"]], "lseed": 93353735},
 ]
 
 
